@@ -37,8 +37,8 @@ INVS = ["TypeOK", "OnlyOwnBytes", "UncleanNeverReused", "OnlyUrllib3Errors", "No
         "Settles"]
 INVS_S4 = ["TypeOK", "OnlyOwnBytesButS4", "UncleanNeverReusedButS4", "OnlyUrllib3Errors", "NoDuplicateOpen",
            "NotPooledWhileHeld", "Settles"]
-ACTIONS = ["StartReq", "Checkout", "Send", "Serve", "RecvHead", "Preload", "Return", "Fail", "OpReadAll", "OpPreloaded",
-           "OpDrain", "OpReadK", "OpStreamStep", "Release", "OpClose", "OpIgnore", "Drop", "ServerStray", "ServerEOF",
+ACTIONS = ["StartReq", "Checkout", "Send", "Serve", "RecvHead", "Preload", "Return", "Fail", "ReadAll", "Preloaded",
+           "Drain", "ReadBody", "StreamStep", "Release", "Close", "Ignore", "Drop", "ServerStray", "ServerEOF",
            "NoAfter", "NextReq", "Finish"]
 SUBS = ["204", "304", "head", "103"]
 
@@ -210,7 +210,7 @@ def _shard(job):
 def _stage1(job):
     """A TLC run without emission: returns what TLC found (used for deviation / coverage / fix runs)."""
     name, cfgtext, workers, coverage = job
-    r = tlc.run("MC_Exchange", cfgtext, workers=workers, heap="4g", timeout=7200, expect_fail=True, coverage=coverage)
+    r = tlc.run("MC_Exchange", cfgtext, workers=workers, heap="3g", timeout=7200, expect_fail=True, coverage=coverage)
     if r.error and not r.violated:
         raise tlc.MachineryError(f"TLC error in {name}: {r.error}\n{r.out[-2000:]}")
     return {"name": name, "violated": r.violated, "generated": r.generated, "distinct": r.distinct, "depth": r.depth,
@@ -318,16 +318,16 @@ def simulation_jobs(tier, seed, dev="NoDev"):
 
 
 def stage1_jobs(tier):
-    small = dict(nreq=3, full=2, emit="FALSE")
+    small = dict(nreq=2, full=1, emit="FALSE")
     s4 = dict(nreq=3, full=1, s1="S4Scripts", emit="FALSE")
     jobs = [
-        ("coverage", cfg(nreq=2, full=1, s1="HardS4Scripts", o1="AllOps", emit="FALSE", inv=INVS_S4, maxsize=2), 2, True),
-        ("dev:NoProbe", cfg(dev="DevNoProbe", **small), 2, False),
-        ("dev:RawNotReady", cfg(dev="DevRawNotReady", nreq=2, full=1, emit="FALSE"), 2, False),
-        ("dev:NoCloseOnUnclean", cfg(dev="DevNoCloseOnUnclean", inv=INVS_S4, **s4), 2, False),
-        ("dev:NoDiscardOnError", cfg(dev="DevNoDiscardOnError", inv=INVS_S4, **s4), 2, False),
-        ("s4:as-is", cfg(**s4), 2, False),
-        ("s4:fix-ReleaseClosesUnread", cfg(dev="DevReleaseCloses", **s4), 2, False),
+        ("coverage", cfg(nreq=2, full=1, s1="HardS4Scripts", o1="AllOps", emit="FALSE", inv=INVS_S4, maxsize=2), 1, True),
+        ("dev:NoProbe", cfg(dev="DevNoProbe", **small), 1, False),
+        ("dev:RawNotReady", cfg(dev="DevRawNotReady", nreq=2, full=1, emit="FALSE"), 1, False),
+        ("dev:NoCloseOnUnclean", cfg(dev="DevNoCloseOnUnclean", inv=INVS_S4, **s4), 1, False),
+        ("dev:NoDiscardOnError", cfg(dev="DevNoDiscardOnError", inv=INVS_S4, **s4), 1, False),
+        ("s4:as-is", cfg(**s4), 1, False),
+        ("s4:fix-ReleaseClosesUnread", cfg(dev="DevReleaseCloses", **s4), 1, False),
     ]
     return jobs
 
@@ -353,7 +353,8 @@ def run(rep):
     rep.extra["model_variant"] = "release_conn discards unread connections" if dev != "NoDev" else "as-is (S4 open)"
     jobs = plan(rep.tier, rep.seed, dev) + simulation_jobs(rep.tier, rep.seed, dev)
     s1 = stage1_jobs(rep.tier)
-    with mp.Pool(min(16, os.cpu_count() or 4)) as pool:
+    jobs_n = int(os.environ.get("VERIF_JOBS") or os.cpu_count() or 4)
+    with mp.Pool(max(1, min(jobs_n, len(jobs) + len(s1) + 1))) as pool:
         a1 = pool.map_async(_stage1, s1, chunksize=1)
         a2 = pool.map_async(_monitor_selftest, [0])
         outs = pool.map(_shard, jobs, chunksize=1)
@@ -366,7 +367,7 @@ def run(rep):
                            "depth": o["depth"], "wall_s": round(o["wall"], 1), "violated": o["violated"]})
         want = EXPECT_S1.get(o["name"])
         if want is None and o["violated"]:
-            rep.violation("ModelViolatesRules", f"TLC: {o['violated']} violated in run {o['name']}", {"kind": "stage1", "run": o["name"]})
+            raise tlc.MachineryError(f"stage 1: the Model violates {o['violated']} in run {o['name']} (spec inconsistent)")
         if want is not None and not (want & set(o["violated"])):
             if o["name"] == "s4:as-is":
                 continue
@@ -392,8 +393,7 @@ def run(rep):
         g["wall"] = max(g["wall"], o["wall"])
         g["depth"] = max(g["depth"], o["depth"])
         if o["violated"]:
-            rep.violation("ModelViolatesRules", f"TLC: {o['violated']} violated in the Model ({m['group']})",
-                          {"kind": "stage1", "run": m["group"]})
+            raise tlc.MachineryError(f"stage 1: the Model violates {o['violated']} in {m['group']} (spec inconsistent)")
         rep.traces += o["n"]
         rep.evaluations += o["n"]
         rep.nontrivial.update(o["nontriv"])
